@@ -24,7 +24,7 @@ def oracle_pass(res, impl_lines, model_stream, label):
 
 
 def harness_lines(stream, args, res, label=None):
-    rc, out = L.sh([L.HX, stream, "--seed", str(res.seed), "--tier", res.tier] + list(args), timeout=3000)
+    rc, out = L.sh([L.HX, stream, "--seed", str(res.seed), "--tier", res.tier] + list(args), timeout=(900 if res.tier == "quick" else 3000))
     if rc != 0:
         res.broken.append(("harness", f"stream {label or stream}", f"exit {rc}: " + out[-600:]))
         return None
@@ -52,6 +52,15 @@ def check_C20(res, replay):
                     "distinct = distinct query lines")
 
 
+# (property, numeric stream) pairs where the model side IS what the property demands (C02: the documented closed form and its
+# exact gradient), so that a disagreement beyond rounding is a failing input of the property itself and not only a broken tie
+NUMERIC_PROVED = {
+    ("C02", "terms"): "the energy model proved equal to the documented closed form, and the gradient program proved to be its derivative",
+    # same atoms, same types, same term structure, but a parameter that is not the one the (translated, proved) equations give
+    ("C12", "build"): "construction applying the translated UFF equations, proved to be the published ones, to each bond / angle / pair of the molecule",
+}
+
+
 def standard(res, translators, prop_mods, streams, level, checker, rule, extra_audit=(), oracle_streams=()):
     """The common shape: translate, prove, build both sides, run each (stream, args, model_stream) and compare."""
     L.run_translators(translators, res)
@@ -61,7 +70,10 @@ def standard(res, translators, prop_mods, streams, level, checker, rule, extra_a
             stream, args, model_stream = spec[:3]
             lines = harness_lines(stream, args, res)
             if lines is not None:
-                L.compare_lines(lines, model_stream, res, stream, ignore_oracle=(len(spec) > 3 and spec[3] == "no-oracle"))
+                mism = L.compare_lines(lines, model_stream, res, stream, ignore_oracle=(len(spec) > 3 and spec[3] == "no-oracle"),
+                                       structural=(len(spec) > 3 and spec[3] == "structural"))
+                if mism and (res.pid, stream) in NUMERIC_PROVED:
+                    L.numeric_search(mism, res, stream, NUMERIC_PROVED[(res.pid, stream)], per_token=(stream == "build"))
         post = getattr(res, "post", None)
         if post:
             post(res)
@@ -228,10 +240,11 @@ def check_C04(res, replay):
     L.run_translators(["tables"], res)
     L.prove(["OptRs.Props.C04", "OptRs.Props.C05"], res, ["OptRs.Model.SD"])
     if L.build_harness(res) and L.build_model(res):
-        for stream, model in (("sd", "sd"), ("opt", "-")):
+        # sd: the optimiser model this property's theorems are about must still correspond (its trace predicates are C05's)
+        for stream, model, io in (("sd", "sd", True), ("opt", "-", False)):
             lines = harness_lines(stream, [], res)
             if lines is not None:
-                L.compare_lines(lines, model, res, stream)
+                L.compare_lines(lines, model, res, stream, ignore_oracle=io)
         # the scripting interface's optimise(): only its frame oracle ([C04]) belongs to this property
         lines = harness_lines("wrapper", [], res)
         if lines is not None:
@@ -256,11 +269,12 @@ def check_C11(res, replay):
     res.assumptions = ["theorems are for ANY numeric layer/typing; 'each once' combines them with C10 (angles/dihedrals/impropers/pairs are the bond graph's, each once)",
                        "'centre whose type has tabulated inversion constants' is decided on the assigned UFF atom type",
                        "torsions within 0.1 rad of a linear flanking angle are dropped at construction (the statement's 'at most one')"]
-    return standard(res, ["tables", "terms", "uff"], ["OptRs.Props.C11", "OptRs.Props.C10"], [("build", [], "build")], "proof",
+    return standard(res, ["tables", "terms", "uff"], ["OptRs.Props.C11", "OptRs.Props.C10"], [("build", [], "build", "structural")], "proof",
                     "lake build OptRs.Props.C11 OptRs.Props.C10 + #print axioms audit",
                     "library molecules; every element as isolated atom; a third of the elements (all in thorough) as centres with H in nine coordination geometries; random "
                     "molecules (chains, rings incl. three-membered, clusters of arbitrary elements, metals) as built and distorted: assigned types and the sorted term list "
-                    "(kind, atoms as stored, parameter bit patterns) of UFF and RB compared with the model; the property's multiset predicates evaluated on the real term lists",
+                    "(kind, atoms as stored; parameter values are C12's and are masked here) of UFF and RB compared with the model; the property's multiset predicates, "
+                    "against the bond graph's angles/dihedrals/pairs enumerated by brute force, evaluated on the real term lists",
                     extra_audit=BUILD_AUDIT)
 
 
@@ -320,7 +334,7 @@ def check_C08(res, replay):
     return L.finish(res, "proof", "lake build OptRs.Props.C08 OptRs.Props.C08Orders OptRs.Props.C10 + #print axioms audit",
                     "every molecule of the build stream is constructed once against the deterministic model; library + low-symmetry distorted centres (>= 3 neighbours with "
                     "pairwise different angles) are constructed 24 (quick) / 64 (thorough) times in one process — each HashSet draws fresh keys — comparing connectivity, assigned "
-                    "types, sorted term lists bit for bit and UFF energy/gradient to 1e-9; the command-line tool is run 4 (quick) / 8 (thorough) times per input comparing opt.xyz bytes")
+                    "types, sorted term lists bit for bit and UFF energy/gradient to 1e-9; the command-line tool is run 4 (quick) / 8 (thorough) times per input comparing the atoms and coordinates of opt.xyz to the written precision (1e-6 A)")
 
 
 # ---------------------------------------------------------------------------------------------------- C17
@@ -434,11 +448,11 @@ def check_C03(res, replay):
                                "axioms audited: subset of {propext, Classical.choice, Quot.sound}"]
     res.assumptions = [REAL_ASSUMPTION,
                        "translation invariance, rotation invariance of all seven energies, zero net force and zero net torque (about the three coordinate axes; with zero net force, about any point) "
-                       "are theorems; PARTLY EXPLORED: the rotation covariance of the gradient (g(Rx) = R g(x)) is checked on the real code only",
+                       "and the rotation covariance of every term's gradient (g(Rx) = R g(x) atom by atom) are theorems over the reals; float-level behaviour at large offsets is explored on the real code",
                        "perception under rigid motion: in floats a pair sitting within 1e-6 (relative) of the 1.3 x radii threshold, or two candidate distances tied to 1e-6, may flip by rounding — "
                        "such inputs are skipped for the connectivity comparison and counted"]
     L.run_translators(["tables", "terms", "uff"], res)
-    L.prove(["OptRs.Props.C03", "OptRs.Props.C02"], res, GRAD_LEMMAS + ["OptRs.Lemmas.Translate", "OptRs.Lemmas.Rotate", "OptRs.Lemmas.Torque", "OptRs.Model.Perceive"])
+    L.prove(["OptRs.Props.C03", "OptRs.Props.C02"], res, GRAD_LEMMAS + ["OptRs.Lemmas.Translate", "OptRs.Lemmas.Rotate", "OptRs.Lemmas.Torque", "OptRs.Lemmas.Covariance", "OptRs.Model.Perceive"])
     if L.build_harness(res) and L.build_model(res):
         for stream, model, io in (("terms", "terms", True), ("rigid", "-", False)):
             lines = harness_lines(stream, [], res)
